@@ -33,29 +33,30 @@ type tIn struct {
 
 type tOp struct {
 	in        tIn
-	out       string
-	n         int // number of destination writes made during the operation
+	out       string // what the destination received between call and return (for messages only)
 	call, ret int64
 	client    int
 }
 
 type c15Run struct {
-	ch       *zsim.Choices
-	levelDst bool
-	blockDst int
-	tick     int64
-	cur      map[int]*tOp
-	hist     [][]*tOp // per writer instance
-	global   []string // destination writes in arrival order (serialized entries), all instances
-	gstart   []int    // index into global where each instance starts
+	ch        *zsim.Choices
+	levelDst  bool
+	blockDst  int
+	tick      int64
+	cur       map[int]*tOp
+	hist      [][]*tOp // per writer instance
+	global    []string // destination writes in arrival order (serialized entries), all instances
+	gtick     []int64  // when each of them arrived (event sequence number)
+	curTicks  []int64
+	gstart    []int // index into global where each instance starts
 	curGlobal []string
 	faulty    bool     // runs with a destination that fails some writes: only the at-most-once/order oracle applies
 	accepted  []string // lines the destination accepted (returned success for), in order, faulty runs
 	lineSeq   map[string]int
 	dstCalls  int
-	cond     zerolog.Level
-	trig     zerolog.Level
-	nLine    int
+	cond      zerolog.Level
+	trig      zerolog.Level
+	nLine     int
 }
 
 type c15Dst struct{ r *c15Run }
@@ -72,17 +73,22 @@ func (d c15Dst) record(l zerolog.Level, p []byte) error {
 		r.accepted = append(r.accepted, string(p))
 		return nil
 	}
-	op := r.cur[zsim.CurID()]
-	if op == nil {
-		zsim.Fail("C15.unexpected_write", "destination written outside any operation: %s", clip(p, 80))
+	// Which goroutine carries a line to the destination is the writer's business (it may
+	// delegate to another caller or to a helper): a write is matched to operations by
+	// *when* it happened, not by who made the call.
+	if len(r.cur) == 0 {
+		zsim.Fail("C15.unexpected_write", "destination written while no WriteLevel/Trigger/Close call is in progress: %s", clip(p, 80))
 	}
 	ent := string(p) + "|"
 	if r.levelDst {
 		ent = fmt.Sprintf("%d:", int8(l)) + ent
 	}
-	op.out += ent
-	op.n++
+	for _, op := range r.cur {
+		op.out += ent
+	}
+	r.tick++
 	r.global = append(r.global, ent)
+	r.gtick = append(r.gtick, r.tick)
 	zsim.Yield("dst.Write")
 	if r.blockDst == 1 {
 		zsim.Fault("dst_blocks")
@@ -127,7 +133,8 @@ func (d c15PlainDst) Write(p []byte) (int, error) {
 type tState struct {
 	triggered bool
 	held      string // serialized held lines
-	pos       int    // how much of the destination's global sequence is explained so far
+	heldN     int
+	pos       int // how much of the destination's global sequence is explained so far
 }
 
 func (r *c15Run) fmtLine(level int8, line string) string {
@@ -137,48 +144,64 @@ func (r *c15Run) fmtLine(level int8, line string) string {
 	return line + "|"
 }
 
-func (r *c15Run) step(st tState, in tIn) (tState, string) {
-	out := ""
+// step is the specification: what the destination receives, as a consequence of one
+// operation, before that operation returns (out = the n lines, serialized).
+func (r *c15Run) step(st tState, in tIn) (tState, string, int) {
+	out, n := "", 0
 	switch in.Kind {
 	case 0:
 		l := zerolog.Level(in.Level)
 		if !st.triggered && l >= r.trig {
-			out += st.held
+			out, n = st.held, st.heldN
 			st.triggered = true
 		}
 		if !st.triggered && l <= r.cond {
 			st.held += r.fmtLine(in.Level, in.Line)
-			return st, out
+			st.heldN++
+			return st, out, n
 		}
 		out += r.fmtLine(in.Level, in.Line)
+		n++
 	case 1:
 		if !st.triggered {
-			out += st.held
+			out, n = st.held, st.heldN
 			st.triggered = true
 		}
 	case 2:
-		st.held = ""
+		st.held, st.heldN = "", 0
 	}
-	return st, out
+	return st, out, n
+}
+
+// explain applies one operation at the current point of a candidate sequential order: the
+// lines the specification makes it deliver must be the next lines the destination
+// received, and the destination must have received each of them between the call and
+// the return of the operation ("immediately": not after it returned). The pseudo
+// operation Kind 3 closes the history: nothing the destination received is left over.
+func (r *c15Run) explain(st tState, op *tOp) (bool, tState, string) {
+	if op.in.Kind == 3 {
+		return st.pos == len(r.curGlobal), st, ""
+	}
+	ns, want, n := r.step(st, op.in)
+	g := r.curGlobal
+	if ns.pos+n > len(g) || strings.Join(g[ns.pos:ns.pos+n], "") != want {
+		return false, ns, want
+	}
+	for i := ns.pos; i < ns.pos+n; i++ {
+		if t := r.curTicks[i]; t < op.call || t > op.ret {
+			return false, ns, want
+		}
+	}
+	ns.pos += n
+	return true, ns, want
 }
 
 func (r *c15Run) model() porcupine.Model {
 	return porcupine.Model{
 		Init: func() interface{} { return tState{} },
 		Step: func(state, input, output interface{}) (bool, interface{}) {
-			ns, out := r.step(state.(tState), input.(tIn))
-			op := output.(*tOp)
-			if out != op.out {
-				return false, ns
-			}
-			// the operation's writes must also be the next contiguous block of what the
-			// destination saw: lines of different operations may not interleave
-			g := r.curGlobal
-			if ns.pos+op.n > len(g) || strings.Join(g[ns.pos:ns.pos+op.n], "") != out {
-				return false, ns
-			}
-			ns.pos += op.n
-			return true, ns
+			ok, ns, _ := r.explain(state.(tState), output.(*tOp))
+			return ok, ns
 		},
 		DescribeOperation: func(input, output interface{}) string {
 			return fmt.Sprintf("%v -> %q", input, output.(*tOp).out)
@@ -362,6 +385,8 @@ func (c15World) Run(prop string, ch *zsim.Choices, trace bool) *RunResult {
 		r.gstart = append(r.gstart, len(r.global))
 		for inst, h := range r.hist {
 			r.curGlobal = r.global[r.gstart[inst]:r.gstart[inst+1]]
+			r.curTicks = r.gtick[r.gstart[inst]:r.gstart[inst+1]]
+			h = append(h, &tOp{in: tIn{Kind: 3}, call: r.tick + 1, ret: r.tick + 2, client: -1})
 			// sequential histories: op by op, for a readable message
 			seq := true
 			for i := 1; i < len(h); i++ {
@@ -372,17 +397,14 @@ func (c15World) Run(prop string, ch *zsim.Choices, trace bool) *RunResult {
 			if seq {
 				st := tState{}
 				for i, op := range h {
-					var want string
-					st, want = r.step(st, op.in)
-					if want == op.out {
-						if st.pos+op.n > len(r.curGlobal) || strings.Join(r.curGlobal[st.pos:st.pos+op.n], "") != want {
-							return viol("C15.sequence", "writer %d, operation %d %v: its lines are not the next lines the destination received", inst, i, descIn(op.in))
-						}
-						st.pos += op.n
+					ok, ns, want := r.explain(st, op)
+					if !ok && op.in.Kind == 3 {
+						return viol("C15.sequence", "writer %d: the destination received %d line(s) more than the specification gives for this history: %s (cond=%d trig=%d)", inst, len(r.curGlobal)-st.pos, clipS(strings.Join(r.curGlobal[st.pos:], " "), 300), r.cond, r.trig)
 					}
-					if want != op.out {
-						return viol("C15.sequence", "writer %d, operation %d %v: destination received %q, the specification gives %q (cond=%d trig=%d)", inst, i, descIn(op.in), clipS(op.out, 300), clipS(want, 300), r.cond, r.trig)
+					if !ok {
+						return viol("C15.sequence", "writer %d, operation %d %v: between its call and its return the destination received %q, the specification gives %q (cond=%d trig=%d)", inst, i, descIn(op.in), clipS(op.out, 300), clipS(want, 300), r.cond, r.trig)
 					}
+					st = ns
 				}
 				continue
 			}
@@ -396,7 +418,7 @@ func (c15World) Run(prop string, ch *zsim.Choices, trace bool) *RunResult {
 				for _, op := range h {
 					d = append(d, fmt.Sprintf("[%d..%d] c%d %s -> %q", op.call, op.ret, op.client, descIn(op.in), clipS(op.out, 80)))
 				}
-				return viol("C15.linearizability", "writer %d: no sequential order of the concurrent operations explains both each operation's own output and the order in which the destination received the lines (cond=%d trig=%d):\n%s\ndestination order: %s", inst, r.cond, r.trig, strings.Join(d, "\n"), clipS(strings.Join(r.curGlobal, " "), 600))
+				return viol("C15.linearizability", "writer %d: no sequential order of the concurrent operations explains what the destination received, in which order, and when (each line between the call and the return of the operation that delivers it) (cond=%d trig=%d); operations with what arrived during each:\n%s\ndestination order: %s", inst, r.cond, r.trig, strings.Join(d, "\n"), clipS(strings.Join(r.curGlobal, " "), 600))
 			case porcupine.Unknown:
 				s.Probes["linearizability_inconclusive"]++
 			default:
@@ -413,6 +435,8 @@ func descIn(in tIn) string {
 		return fmt.Sprintf("WriteLevel(%d,%s)", in.Level, clipS(in.Line, 24))
 	case 1:
 		return "Trigger()"
+	case 3:
+		return "(end of history: nothing else arrived)"
 	}
 	return "Close()"
 }
